@@ -11,13 +11,13 @@ git apply --check $m/patch.diff || { echo "PATCH DOES NOT APPLY"; exit 2; }
 needs_build=$(grep -c '^+++ .*\.p\(yx\|xd\)' $m/patch.diff)
 build() { [ "$needs_build" -gt 0 ] && /venv/bin/python setup.py build_ext -j16 --inplace >/dev/null 2>&1; return 0; }
 # unpatched: demo must pass
-build; timeout 900 /venv/bin/python $m/demo.py >/tmp/demo0.out 2>&1; rc0=$?
+build; timeout 900 /venv/bin/python $m/demo.py >/tmp/confirm-$sid-demo0.out 2>&1; rc0=$?
 git apply $m/patch.diff; build
-timeout 900 /venv/bin/python $m/demo.py >/tmp/demo1.out 2>&1; rc1=$?
+timeout 900 /venv/bin/python $m/demo.py >/tmp/confirm-$sid-demo1.out 2>&1; rc1=$?
 trc=skipped
-if [ -n "$tests" ]; then timeout 3000 /venv/bin/python -m pytest -q -x -p no:cacheprovider --timeout=900 -n 8 $tests >/tmp/tests.out 2>&1; trc=$?; fi
+if [ -n "$tests" ]; then timeout 3000 /venv/bin/python -m pytest -q -x -p no:cacheprovider --timeout=900 -n 4 $tests >/tmp/confirm-$sid-tests.out 2>&1; trc=$?; fi
 git checkout -q -- cherab; build
-echo "confirm $sid: demo unpatched rc=$rc0 patched rc=$rc1 tests rc=$trc ($(tail -1 /tmp/tests.out 2>/dev/null))"
+echo "confirm $sid: demo unpatched rc=$rc0 patched rc=$rc1 tests rc=$trc ($(tail -1 /tmp/confirm-$sid-tests.out 2>/dev/null))"
 if [ $rc0 -eq 0 ] && [ $rc1 -ne 0 ] && { [ "$trc" = "0" ] || [ "$trc" = skipped ]; }; then
   d=/verif/seeded/$sid; mkdir -p $d
   cp $m/patch.diff $d/patch.diff
@@ -26,5 +26,5 @@ if [ $rc0 -eq 0 ] && [ $rc1 -ne 0 ] && { [ "$trc" = "0" ] || [ "$trc" = skipped 
   cp $m/meta.json $d/meta.agent.json
   echo "INSTALLED $d"
 else
-  echo "REJECTED $sid"; tail -5 /tmp/demo0.out /tmp/demo1.out
+  echo "REJECTED $sid"; tail -5 /tmp/confirm-$sid-demo0.out /tmp/confirm-$sid-demo1.out
 fi
